@@ -45,6 +45,11 @@ def splitStr (s sep : Bytes) : List Bytes := splitStrFuel sep (s.length + 1) s [
 
 /-! ### option.go -/
 
+/-- map or slice kind -/
+def Ty.isRef : Ty → Bool
+  | .map _ _ | .slice _ => true
+  | _ => false
+
 def Opt.empty (o : Opt) : Opt := if o.ty.isFunc then o else { o with val := o.ty.emptyValue }
 
 /-- behaviour of the harness' callback fields (harness/types.go) -/
@@ -76,25 +81,30 @@ def allowedList (cs : List Bytes) : Bytes :=
   | [only] => only
   | last :: revInit => join (B ", ") revInit.reverse ++ B " or " ++ last
 
+/-- the first half of `Option.Set`: the reference-clearing rule and the three flags -/
+def Opt.markSet (o : Opt) : Opt :=
+  let o := if o.ty.isRef && o.clearRef then o.empty else o
+  { o with isSet := true, preventDefault := true, clearRef := false }
+
+/-- the choice test of `Option.Set` (no value, nothing to test — after the D1 fix) -/
+def choiceRejected (o : Opt) (value : Option Bytes) : Bool :=
+  match value with
+  | some v => o.choices ≠ [] && !o.choices.contains v
+  | none => false
+
 /-- `Option.Set` -/
 def optSet (E : Env) (help : HelpFn) (P : Parser) (r : ORef) (value : Option Bytes) (log : List Event) :
     Parser × List Event × Option GoErr :=
-  let o := P.opt r
-  let isRef := match o.ty with | .map _ _ | .slice _ => true | _ => false
-  let o := if isRef && o.clearRef then o.empty else o
-  let o := { o with isSet := true, preventDefault := true, clearRef := false }
-  let P := P.modOpt r fun _ => o
-  let bad := match value with
-    | some v => o.choices ≠ [] && !o.choices.contains v
-    | none => false
-  if bad then
-    (P, log, some (.flags .invalidChoice (B "Invalid value `" ++ value.getD [] ++ B "' for option `" ++
-      P.optString r ++ B "'. Allowed values are: " ++ allowedList o.choices)))
-  else if o.ty.isFunc then optCall E help P r value log
+  let o := (P.opt r).markSet
+  let P1 := P.modOpt r fun _ => o
+  if choiceRejected o value then
+    (P1, log, some (.flags .invalidChoice (B "Invalid value `" ++ value.getD [] ++ B "' for option `" ++
+      P1.optString r ++ B "'. Allowed values are: " ++ allowedList o.choices)))
+  else if o.ty.isFunc then optCall E help P1 r value log
   else
     match convert E o.tag (value.getD []) o.ty o.val with
-    | .ok v => (P.modOpt r fun o => { o with val := v }, log, none)
-    | .error m => (P.modOpt r fun o => { o with val := convertFailState o.ty o.val }, log, some (.foreign m))
+    | .ok v => (P1.modOpt r fun o => { o with val := v }, log, none)
+    | .error m => (P1.modOpt r fun o => { o with val := convertFailState o.ty o.val }, log, some (.foreign m))
 
 /-- `Option.setDefault` -/
 def optSetDefault (E : Env) (help : HelpFn) (P : Parser) (r : ORef) (value : Option Bytes) (log : List Event) :
@@ -111,24 +121,31 @@ def setDefaults (E : Env) (help : HelpFn) (r : ORef) : List Bytes → Parser →
     | (P, log, some e) => (P, log, some e)
     | (P, log, none) => setDefaults E help r ds P log
 
+/-- the defaults `clearDefault` will apply: the environment variable (split on `env-delim`)
+    when the option has an env key and the variable is set, else the `default` tags -/
+def usedDefault (E : Env) (P : Parser) (r : ORef) : List Bytes :=
+  let o := P.opt r
+  let envKey := P.envKeyNS r
+  if envKey ≠ [] then
+    match E.getenv envKey with
+    | some v => if o.envDelim ≠ [] then splitStr v o.envDelim else [v]
+    | none => o.dflt
+  else o.dflt
+
+def Opt.isNilMap (o : Opt) : Bool :=
+  match o.ty, o.val with
+  | .map _ _, .map true _ => true
+  | _, _ => false
+
 /-- `Option.clearDefault` -/
 def optClearDefault (E : Env) (help : HelpFn) (P : Parser) (r : ORef) (log : List Event) :
     Parser × List Event × Option GoErr :=
-  let o := P.opt r
-  if o.preventDefault then (P, log, none) else
-  let envKey := P.envKeyNS r
-  let used := if envKey ≠ [] then
-      match E.getenv envKey with
-      | some v => if o.envDelim ≠ [] then splitStr v o.envDelim else [v]
-      | none => o.dflt
-    else o.dflt
-  let P := P.modOpt r fun o => { o with isSetDefault := true }
-  if used ≠ [] then
-    setDefaults E help r used (P.modOpt r Opt.empty) log
-  else
-    match o.ty, o.val with
-    | .map _ _, .map true _ => (P.modOpt r Opt.empty, log, none)
-    | _, _ => (P, log, none)
+  if (P.opt r).preventDefault then (P, log, none) else
+  let P1 := P.modOpt r fun o => { o with isSetDefault := true }
+  if usedDefault E P r ≠ [] then
+    setDefaults E help r (usedDefault E P r) (P1.modOpt r Opt.empty) log
+  else if (P.opt r).isNilMap then (P1.modOpt r Opt.empty, log, none)
+  else (P1, log, none)
 
 /-- `Parser.marshalError` -/
 def marshalError (P : Parser) (r : ORef) (msg : Bytes) : GoErr :=
@@ -215,40 +232,43 @@ def setOptionalValues (E : Env) (help : HelpFn) (r : ORef) : List Bytes → Pars
     | (P, log, some e) => (P, log, some e)
     | (P, log, none) => setOptionalValues E help r vs P log
 
+/-- store the outcome of `Option.Set` in the parse state; a non-flags error becomes ErrMarshal -/
+def finishSet (s : PS) (r : ORef) (res : Parser × List Event × Option GoErr) : PS × Option GoErr :=
+  ({ s with P := res.1, log := res.2.1 }, res.2.2.map (wrapMarshal res.1 r))
+
+/-- the argument of an option occurrence: the inline one, or the next token (popped and checked) -/
+def takeArgument (s : PS) (r : ORef) (argument : Option Bytes) : PS × Bytes × Option GoErr :=
+  match argument with
+  | some a => (s, a, none)
+  | none =>
+    let (s, a) := s.pop
+    match isValidValue s.P r a with
+    | some m => (s, a, some (.flags .expectedArgument m))
+    | none =>
+      if s.P.opts.passDoubleDash && a = B "--" then
+        (s, a, some (.flags .expectedArgument (B "expected argument for flag `" ++ s.P.optString r ++
+          B "', but got double dash `--'")))
+      else (s, a, none)
+
 /-- `Parser.parseOption` -/
 def parseOption (E : Env) (help : HelpFn) (s : PS) (r : ORef) (canarg : Bool) (argument : Option Bytes) :
     PS × Option GoErr :=
   let o := s.P.opt r
-  let finish (s : PS) (res : Parser × List Event × Option GoErr) : PS × Option GoErr :=
-    let (P, log, e) := res
-    ({ s with P := P, log := log }, e.map (wrapMarshal P r))
   if !o.ty.canArgument then
     if argument.isSome then
       (s, some (.flags .noArgumentForBool (B "bool flag `" ++ s.P.optString r ++ B "' cannot have an argument")))
-    else finish s (optSet E help s.P r none s.log)
+    else finishSet s r (optSet E help s.P r none s.log)
   else if argument.isSome || (canarg && !s.eof) then
-    let (s, arg, early) : PS × Bytes × Option GoErr :=
-      match argument with
-      | some a => (s, a, none)
-      | none =>
-        let (s, a) := s.pop
-        match isValidValue s.P r a with
-        | some m => (s, a, some (.flags .expectedArgument m))
-        | none =>
-          if s.P.opts.passDoubleDash && a = B "--" then
-            (s, a, some (.flags .expectedArgument (B "expected argument for flag `" ++ s.P.optString r ++
-              B "', but got double dash `--'")))
-          else (s, a, none)
-    match early with
-    | some e => (s, some e)
-    | none =>
+    match takeArgument s r argument with
+    | (s, _, some e) => (s, some e)
+    | (s, arg, none) =>
       let unq : Option Bytes :=
         if tagGet o.tag (B "unquote") ≠ B "false" then unquoteIfPossible arg else some arg
       match unq with
       | none => (s, some (marshalError s.P r (B "invalid syntax")))
-      | some a => finish s (optSet E help s.P r (some a) s.log)
+      | some a => finishSet s r (optSet E help s.P r (some a) s.log)
   else if o.optionalArg then
-    finish s (setOptionalValues E help r o.optionalValue (s.P.modOpt r Opt.empty) s.log)
+    finishSet s r (setOptionalValues E help r o.optionalValue (s.P.modOpt r Opt.empty) s.log)
   else
     (s, some (.flags .expectedArgument (B "expected argument for flag `" ++ s.P.optString r ++ B "'")))
 
@@ -287,27 +307,16 @@ def parseShort (E : Env) (help : HelpFn) (s : PS) (optname : Bytes) (argument : 
 
 /-- `Parser.parseNonOption` (the returned flag says whether the loop must stop) -/
 def parseNonOption (E : Env) (s : PS) : PS × Bool :=
-  if s.positional ≠ [] then
-    let (s, e) := s.addArgs E [s.arg]
-    (s, e.isSome)
-  else
-    let c := s.P.cmd s.cmd
-    if (s.P.subs s.cmd) ≠ [] && s.retargs = [] then
-      match s.P.lookupCmd s.cmd s.arg with
-      | some sub =>
-        let P := s.P.modCmd s.cmd fun c => { c with active := some sub }
-        (({ s with P := P }).fill sub, false)
-      | none =>
-        if !c.subOpt then
-          let (s, _) := s.addArgs E [s.arg]
-          -- the returned error stops the loop but is not stored in s.err
-          (s, true)
-        else
-          let (s, e) := s.addArgs E [s.arg]
-          (s, e.isSome)
-    else
-      let (s, e) := s.addArgs E [s.arg]
-      (s, e.isSome)
+  let add := s.addArgs E [s.arg]
+  if s.positional ≠ [] then (add.1, add.2.isSome)
+  else if (s.P.subs s.cmd) ≠ [] && s.retargs = [] then
+    match s.P.lookupCmd s.cmd s.arg with
+    | some sub =>
+      (({ s with P := s.P.modCmd s.cmd fun c => { c with active := some sub } }).fill sub, false)
+    | none =>
+      -- for a required command the returned error stops the loop but is not stored in s.err
+      if !(s.P.cmd s.cmd).subOpt then (add.1, true) else (add.1, add.2.isSome)
+  else (add.1, add.2.isSome)
 
 /-- behaviour of the harness' unknown-option handlers -/
 def runHandler (h : Handler) (name : Bytes) (args : List Bytes) : Except GoErr (List Bytes) :=
@@ -316,6 +325,20 @@ def runHandler (h : Handler) (name : Bytes) (args : List Bytes) : Except GoErr (
   | .dropNext => .ok (args.drop 1)
   | .prepend tok => .ok (tok :: args)
   | .fail => .error (.foreign (B "handler refused: " ++ name))
+
+def GoErr.isUnknownFlag : GoErr → Bool
+  | .flags .unknownFlag _ => true
+  | _ => false
+
+/-- `wrapError`: a non-flags error becomes ErrUnknown with the same text -/
+def wrapError : GoErr → GoErr
+  | .flags t m => .flags t m
+  | o => .flags .unknown o.text
+
+/-- the policy switch after a failed option token: stop unless the failure is an unknown flag
+    and either IgnoreUnknown is set or a handler is installed -/
+def unknownPolicyStops (P : Parser) (e : GoErr) : Bool :=
+  !e.isUnknownFlag || (!P.opts.ignoreUnknown && P.handler == .none)
 
 /-- the `for !s.eof()` loop of `ParseArgs` -/
 def parseLoop (E : Env) (help : HelpFn) : Nat → PS → PS
@@ -341,17 +364,14 @@ def parseLoop (E : Env) (help : HelpFn) : Nat → PS → PS
       match err with
       | none => parseLoop E help fuel s
       | some e =>
-        let isUnknownFlag := match e with | .flags .unknownFlag _ => true | _ => false
-        let parseErr : GoErr := match e with | .flags t m => .flags t m | o => .flags .unknown o.text
-        if !isUnknownFlag || (!s.P.opts.ignoreUnknown && s.P.handler = .none) then
-          { s with err := some parseErr }
+        if unknownPolicyStops s.P e then
+          { s with err := some (wrapError e) }
         else if s.P.opts.ignoreUnknown then
           parseLoop E help fuel (s.addArgs E [arg]).1
         else
-          let s := { s with log := s.log ++ [Event.unknown optname argument s.args] }
           match runHandler s.P.handler optname s.args with
-          | .error e => { s with err := some e }
-          | .ok args => parseLoop E help fuel { s with args := args }
+          | .error e => { s with err := some e, log := s.log ++ [Event.unknown optname argument s.args] }
+          | .ok args => parseLoop E help fuel { s with args := args, log := s.log ++ [Event.unknown optname argument s.args] }
 
 /-- bytewise insertion sort (`sort.Strings`) -/
 def insertSorted (x : Bytes) : List Bytes → List Bytes
@@ -446,33 +466,51 @@ def clearDefaultsAll (E : Env) (help : HelpFn) : List ORef → PS → PS
     | (P, log, none) => clearDefaultsAll E help rs { s with P := P, log := log }
     | (P, log, some e) => clearDefaultsAll E help rs { s with P := P, log := log, err := some (wrapMarshal P r e) }
 
+/-- the preamble of `ParseArgs`: every option gets `clearReferenceBeforeSet` and a fresh default
+    literal; the built-in help groups are added when HelpFlag is set -/
+def prepare (E : Env) (P : Parser) : Parser :=
+  let P := P.allORefs.foldl (fun P r => P.modOpt r fun o => updateDefaultLiteral E { o with clearRef := true }) P
+  if P.opts.helpFlag then P.addHelpGroups else P
+
+/-- the argument loop followed — when it raised no error — by defaults and the required check -/
+def parsePhase (E : Env) (help : HelpFn) (P : Parser) (argv : List Bytes) : PS :=
+  let s := parseLoop E help (4 * argv.length + 16) (({ P := P, args := argv } : PS).fill 0)
+  if s.err.isNone then checkRequired (clearDefaultsAll E help s.P.allORefs s) else s
+
+/-- what runs after a parse without error: command estimation, or the one invocation -/
+def dispatch (s : PS) : Option GoErr × List Event :=
+  let c := s.P.cmd s.cmd
+  if (s.P.subs s.cmd) ≠ [] && !c.subOpt then (some (estimateCommand s), s.log)
+  else if c.commander ≠ 0 then
+    if s.P.cmdHandler then (executeResult s.P s.cmd, s.log ++ [.cmdHandler (some s.cmd) s.retargs, .exec s.cmd s.retargs])
+    else (executeResult s.P s.cmd, s.log ++ [.exec s.cmd s.retargs])
+  else if s.P.cmdHandler then (none, s.log ++ [.cmdHandler none s.retargs])
+  else (none, s.log)
+
+/-- the error to return and the events so far: the parse error if any, else `dispatch` -/
+def outcome (s : PS) : Option GoErr × List Event :=
+  match s.err with
+  | some e => (some e, s.log)
+  | none => dispatch s
+
+def GoErr.isHelp : GoErr → Bool
+  | .flags .help _ => true
+  | _ => false
+
+/-- the tail of `ParseArgs`: returned arguments and `printError` -/
+def finishParse (s : PS) (oc : Option GoErr × List Event) : ParseResult :=
+  match oc.1 with
+  | none => { P := s.P, ret := s.retargs, err := none, log := oc.2 }
+  | some e =>
+    { P := s.P, ret := if e.isHelp then s.args else s.arg :: s.args, err := some e,
+      log := if s.P.opts.printErrors then oc.2 ++ [.out (!e.isHelp) (e.text ++ [0x0A])] else oc.2 }
+
 /-- `Parser.ParseArgs` outside completion mode -/
 def parseArgs (E : Env) (help : HelpFn) (P : Parser) (argv : List Bytes) : ParseResult :=
   match P.internalError with
   | some e => { P := P, ret := [], err := some e, log := [] }
   | none =>
-    let P := P.allORefs.foldl (fun P r => P.modOpt r fun o => updateDefaultLiteral E { o with clearRef := true }) P
-    let P := if P.opts.helpFlag then P.addHelpGroups else P
-    let s : PS := ({ P := P, args := argv } : PS).fill 0
-    let s := parseLoop E help (4 * argv.length + 16) s
-    let s := if s.err.isNone then checkRequired (clearDefaultsAll E help s.P.allORefs s) else s
-    let (reterr, log) : Option GoErr × List Event :=
-      match s.err with
-      | some e => (some e, s.log)
-      | none =>
-        let c := s.P.cmd s.cmd
-        if (s.P.subs s.cmd) ≠ [] && !c.subOpt then (some (estimateCommand s), s.log)
-        else if c.commander ≠ 0 then
-          if s.P.cmdHandler then (executeResult s.P s.cmd, s.log ++ [.cmdHandler (some s.cmd) s.retargs, .exec s.cmd s.retargs])
-          else (executeResult s.P s.cmd, s.log ++ [.exec s.cmd s.retargs])
-        else if s.P.cmdHandler then (none, s.log ++ [.cmdHandler none s.retargs])
-        else (none, s.log)
-    match reterr with
-    | none => { P := s.P, ret := s.retargs, err := none, log := log }
-    | some e =>
-      let isHelp := match e with | .flags .help _ => true | _ => false
-      let ret := if isHelp then s.args else s.arg :: s.args
-      let log := if s.P.opts.printErrors then log ++ [.out (!isHelp) (e.text ++ [0x0A])] else log
-      { P := s.P, ret := ret, err := some e, log := log }
+    let s := parsePhase E help (prepare E P) argv
+    finishParse s (outcome s)
 
 end GoFlags
